@@ -7,14 +7,20 @@ package main
 // analysis of the property they belong to (runProperty), never re-implemented.
 var importTable = map[string][]Import{
 	"C01": {
+		{From: "C10", Rules: []string{"C10.R1", "C10.R2"}, Why: "available RAM is what VisitMemRegions reports as available: every entry of the memory map, read at the stride the bootloader gives, with unknown types turned into reserved"},
 		{From: "C02", Rules: []string{"C02.R3"}, Why: "a frame consumed by the early-boot allocator stays reserved only if the hand-over replays exactly the early allocations"},
 		{From: "C03", Rules: []string{"C03.R1", "C03.R2"}, Why: "pool bitmaps that overlap or are too short let one frame's bit stand for another, and a free that is not rejected makes a frame allocatable while it is held"},
 	},
 	"C03": {
+		{From: "C10", Rules: []string{"C10.R1", "C10.R2"}, Why: "available RAM is what VisitMemRegions reports as available: every entry of the memory map, read at the stride the bootloader gives, with unknown types turned into reserved"},
 		{From: "C02", Rules: []string{"C02.R3"}, Why: "the usable total is available RAM minus kernel image minus exactly the early-boot allocations"},
 		{From: "C01", Rules: []string{"C01.R4"}, Why: "every usable frame is allocatable only if the scan visits every bitmap word and the allocation and free sides agree on the bit of a frame"},
 	},
+	"C02": {
+		{From: "C10", Rules: []string{"C10.R1", "C10.R2"}, Why: "available RAM is what VisitMemRegions reports as available: every entry of the memory map, read at the stride the bootloader gives, with unknown types turned into reserved"},
+	},
 	"C05": {
+		{From: "C10", Rules: []string{"C10.R5"}, Keys: []string{"non-empty-sections", "section-reads-bounded"}, Why: "the sections that get mapped are the ones VisitElfSections reports: every non-empty section header, read inside the section table"},
 		{From: "C07", Rules: []string{"C07.R1"}, Why: "regions reserved earlier keep their translations only if later reservations cannot overlap them or wrap"},
 		{From: "C04", Rules: []string{"C04.R1"}, Why: "section permissions reach the hardware entry only if Map writes exactly the requested frame and flags"},
 	},
@@ -27,6 +33,7 @@ var importTable = map[string][]Import{
 	"C09": {
 		{From: "C08", Rules: []string{"C08.R1", "C08.R2", "C08.R3"}, Why: "the allocator's critical sections exclude each other only if the spinlock does"},
 		{From: "C03", Rules: []string{"C03.R3"}, Why: "the totals agree after all callers stopped only if every bit change is paired with its counter update inside the same critical section"},
+		{From: "C01", Rules: []string{"C01.R4"}, Why: "a freed frame becomes allocatable again only if the scan visits every bitmap word of every pool"},
 	},
 	"C11": {
 		{From: "C12", Rules: []string{"C12.R4"}, Why: "objects declared after their use or in a later table are resolved only if the resolve passes run, count progress and terminate as designed"},
